@@ -17,7 +17,7 @@ from collections import Counter
 from concurrent.futures import ProcessPoolExecutor, as_completed
 from typing import Any, Dict, List, Optional
 
-from . import VERIF_ROOT
+from . import VERIF_ROOT, isolate
 from .core import RunResult, Violation, replay_trace, run_history
 from .known import Known
 from .rng import derive_seed
@@ -53,22 +53,42 @@ def _summarise(i: int, r: RunResult, keep_trace: bool) -> Dict[str, Any]:
     return out
 
 
-def _run_batch(indices: List[int]) -> List[Dict[str, Any]]:
+def _one_run(i: int) -> Dict[str, Any]:
     ctx = _CTX
     known = Known.load(ctx.get("known_path")) if ctx.get("use_known", True) else Known.empty()
+    faulthandler.dump_traceback_later(ctx.get("run_timeout", 180), exit=True)
+    seed = derive_seed(ctx["base_seed"], _ENGINE.name, ctx.get("profile"), i)
+    r = run_history(_ENGINE, seed, ctx["tier"], known=known, focus=ctx.get("focus"), profile=ctx.get("profile"))
+    faulthandler.cancel_dump_traceback_later()
+    return _summarise(i, r, keep_trace=(i < ctx.get("n_samples", 3)))
+
+
+def _run_batch(indices: List[int]) -> List[Dict[str, Any]]:
+    """The search executes the runs of a batch one after the other in this worker (a fork per run costs 0.1 s with
+    sixteen 600 MB workers forking at once); what a run may have inherited from earlier runs of its worker through
+    process-level state of the code under test is filtered out afterwards: every violation is re-executed in a forked
+    child of the pristine main process before it is minimised (run_check).  VERIF_ISOLATE_RUNS=1 forks per run."""
+    ctx = _CTX
     out = []
+    per_run = os.environ.get("VERIF_ISOLATE_RUNS") == "1"
     for i in indices:
-        faulthandler.dump_traceback_later(ctx.get("run_timeout", 180), exit=True)
-        seed = derive_seed(ctx["base_seed"], _ENGINE.name, ctx.get("profile"), i)
-        r = run_history(
-            _ENGINE, seed, ctx["tier"], known=known, focus=ctx.get("focus"), profile=ctx.get("profile")
-        )
-        faulthandler.cancel_dump_traceback_later()
-        out.append(_summarise(i, r, keep_trace=(i < ctx.get("n_samples", 3))))
+        try:
+            out.append(isolate.call(_one_run, i, timeout=ctx.get("run_timeout", 180) + 30) if per_run else _one_run(i))
+        except isolate.ChildDied as e:
+            seed = derive_seed(ctx["base_seed"], _ENGINE.name, ctx.get("profile"), i)
+            out.append({"i": i, "seed": seed, "digest": "", "n_ops": 0, "status": {}, "violations": [], "known": {},
+                        "stats": {}, "error": str(e)})
     return out
 
 
 def _replay_witness(path: str) -> Dict[str, Any]:
+    try:
+        return isolate.call(_replay_witness_here, path, timeout=240)
+    except isolate.ChildDied as e:
+        return {"sigs": [], "error": str(e)}
+
+
+def _replay_witness_here(path: str) -> Dict[str, Any]:
     """Replay the witness of an open finding with NO known list: does it still fail?"""
     with open(path) as f:
         trace = json.load(f)
@@ -186,39 +206,55 @@ def run_check(
     for r in viol_runs:
         v = violation_from_json(r["violations"][0])
         by_sig.setdefault(v.prop + "|" + v.sig, []).append(r)
-    for k in list(by_sig)[:4]:
-        # a run whose violation does not replay (in-process, then in a fresh interpreter) is never reported;
-        # the next run with the same signature is tried instead (state leaking between runs of one worker
-        # process, e.g. a process-global cache introduced into the code under test, shows up this way)
-        for r in by_sig[k][:5]:
-            v = violation_from_json(r["violations"][0])
-            trace = r["trace"]
-            small, used = shrink(engine, trace, v, known=known, focus=ctx["focus"], budget=300)
-            if small is None:
-                unreplayable.append(f"violation of run {r['i']} (seed {r['seed']}, {v.key()}, sig={v.sig}) did not replay in-process")
-                continue
-            small["violation"] = v.to_json()
-            small["shrink_executions"] = used
-            small["original_len"] = len(trace["ops"])
-            rdir = os.environ.get("VERIF_REPLAY_DIR") or os.path.join(VERIF_ROOT, "replays")
-            os.makedirs(rdir, exist_ok=True)
-            path = os.path.join(rdir, f"{prop}-{r['seed']}.json")
-            with open(path, "w") as f:
-                json.dump(small, f, indent=1, sort_keys=True)
-            got = confirm_fresh(engine_name, path, prop)
-            if got is None or got.split()[0] != v.key():
-                unreplayable.append(f"minimised trace {path} did not fail the same way in a fresh interpreter: {got}")
-                try:
-                    os.remove(path)
-                except OSError:
-                    pass
-                continue
-            reported.append({"path": path, "violation": v.to_json(), "len": len(small["ops"])})
-            print(f"VIOLATION property={prop} replay={path}")
-            if not quiet:
-                print(f"  class={v.cls} sig={v.sig} seed={r['seed']} ops={len(small['ops'])} (from {len(trace['ops'])})")
-                print(f"  detail={json.dumps(v.detail, sort_keys=True, default=str)[:600]}")
+    # a violation is reported only if its own trace reproduces it: first in a forked child of this (pristine) process
+    # -- the workers have executed other runs before, and process-level state introduced into the code under test (a
+    # memoised function, a module-level default) would make a run depend on them --, then minimised (every candidate
+    # in its own child), then once more in a fresh interpreter.  Candidates are taken round-robin over the
+    # signatures until one violation per signature (at most four) is confirmed or the attempts are used up.
+    queue: List[Dict[str, Any]] = []
+    sig_lists = [list(v_) for v_ in by_sig.values()]
+    depth = 0
+    while any(depth < len(l_) for l_ in sig_lists):
+        queue.extend(l_[depth] for l_ in sig_lists if depth < len(l_))
+        depth += 1
+    done_sigs: set = set()
+    attempts = 0
+    t_confirm = time.time()
+    for r in queue:
+        v = violation_from_json(r["violations"][0])
+        k = v.prop + "|" + v.sig
+        if k in done_sigs or len(done_sigs) >= 4:
+            continue
+        if attempts >= 120 or (attempts >= 10 and time.time() - t_confirm > 120):
             break
+        attempts += 1
+        trace = r["trace"]
+        small, used = shrink(engine, trace, v, known=known, focus=ctx["focus"], budget=300)
+        if small is None:
+            unreplayable.append(f"violation of run {r['i']} (seed {r['seed']}, {v.key()}, sig={v.sig}) did not replay in an isolated process")
+            continue
+        small["violation"] = v.to_json()
+        small["shrink_executions"] = used
+        small["original_len"] = len(trace["ops"])
+        rdir = os.environ.get("VERIF_REPLAY_DIR") or os.path.join(VERIF_ROOT, "replays")
+        os.makedirs(rdir, exist_ok=True)
+        path = os.path.join(rdir, f"{prop}-{r['seed']}.json")
+        with open(path, "w") as f:
+            json.dump(small, f, indent=1, sort_keys=True)
+        got = confirm_fresh(engine_name, path, prop)
+        if got is None or got.split()[0] != v.key():
+            unreplayable.append(f"minimised trace {path} did not fail the same way in a fresh interpreter: {got}")
+            try:
+                os.remove(path)
+            except OSError:
+                pass
+            continue
+        done_sigs.add(k)
+        reported.append({"path": path, "violation": v.to_json(), "len": len(small["ops"])})
+        print(f"VIOLATION property={prop} replay={path}")
+        if not quiet:
+            print(f"  class={v.cls} sig={v.sig} seed={r['seed']} ops={len(small['ops'])} (from {len(trace['ops'])})")
+            print(f"  detail={json.dumps(v.detail, sort_keys=True, default=str)[:600]}")
     if unreplayable and not reported:
         # observed but never reproduced: not believed as a violation, and not silently dropped either
         harness_errors.extend(unreplayable)
